@@ -2,7 +2,8 @@ package soy
 
 import "strings"
 
-var c06Globals = []string{"1", "-1", "'s'", "1.5", "true", "null", "1 + 2", "$x", "$x.y", "1 % 0", "length(1)", "f(", "'a' < 1", "[1, 2]", "UNDEF", "not 1", "1 2 3", "", "-'a'"}
+var c06Globals = []string{"1", "-1", "'s'", "1.5", "true", "null", "1 + 2", "$x", "$x.y", "1 % 0", "length(1)", "f(", "'a' < 1", "[1, 2]", "UNDEF", "not 1", "1 2 3", "", "-'a'",
+	"'\\u12'", "'ab\\u123'", "'\\u00e9'", "'\\", "['a': 1", "0x", "1e", "$x[", "f(1,", "'\\q'"}
 
 // H_globals: ParseGlobals on "name = <expr>" for valid, erroring and malformed expressions:
 // returns a map or an error, never panics.
